@@ -75,3 +75,33 @@ Theorem C14_degree_split A n i : i <= n ->
   retarded_degree A n i + advanced_degree A n i = degree A n i.
 Proof. exact (degree_split A n i). Qed.
 Print Assumptions C14_degree_split.
+
+(* ---- the kernels AS WRITTEN IN THE CURRENT numerics.pyx (regenerated on every
+        run: loop ranges, scan start, scan condition, link test, trivial links,
+        element type of the slopes) are the model ---- *)
+From PV.Gen Require Import VisibilityK.
+From PV.Proofs Require Import VisibilityGen.
+From Coq Require Import String.
+
+Theorem C14_natural_kernel_is_model lt x t i j k :
+  gen_no_missingvalues_cond lt x t i j k = nat_cond lt x t i j k.
+Proof. exact (gen_natural_is_model lt x t i j k). Qed.
+Print Assumptions C14_natural_kernel_is_model.
+
+Theorem C14_missing_kernel_is_model lt x t mv i j k :
+  negb (mv i) && negb (mv j) && gen_missingvalues_cond lt x t mv i j k = mv_cond lt x t mv i j k.
+Proof. exact (gen_missing_is_model lt x t mv i j k). Qed.
+Print Assumptions C14_missing_kernel_is_model.
+
+Theorem C14_horizontal_kernel_is_model lt x i j k :
+  gen_horizontal_cond lt x i j k = hor_cond lt x i j k.
+Proof. exact (gen_horizontal_is_model lt x i j k). Qed.
+Print Assumptions C14_horizontal_kernel_is_model.
+
+Theorem C14_kernel_facts mv i :
+  (gen_no_missingvalues_trivial i = true /\ gen_horizontal_trivial i = true /\
+   gen_missingvalues_trivial mv i = (negb (mv i) && negb (mv (S i)))) /\
+  (gen_no_missingvalues_type = "FIELD_t"%string /\ gen_missingvalues_type = "FIELD_t"%string /\
+   gen_horizontal_type = "FIELD_t"%string).
+Proof. split; [exact (gen_trivial_links mv i)|exact gen_slope_types]. Qed.
+Print Assumptions C14_kernel_facts.
